@@ -1,0 +1,78 @@
+//go:build verif
+
+// Contracts for package snapshot (comment-only; compiled only with the build tag "verif",
+// read by /verif/engine). Property C18 (stream framing).
+
+package snapshot
+
+//@ import io "io"
+//@ import s2 "github.com/klauspost/compress/s2"
+//@ import regattapb "github.com/jamf/regatta/regattapb"
+
+// byte-string algebra: concatenation and sub-string, defined by length and content
+//@ uninterp func bcat(a Bytes, b Bytes) Bytes
+//@ axiom forall a Bytes, b Bytes :: blen(bcat(a, b)) == blen(a) + blen(b)
+//@ axiom forall a Bytes, b Bytes, i Int :: 0 <= i && i < blen(a) + blen(b) ==> bat(bcat(a, b), i) == (i < blen(a) ? bat(a, i) : bat(b, i - blen(a)))
+//@ uninterp func bsub(b Bytes, o Int, n Int) Bytes
+//@ axiom forall b Bytes, o Int, n Int :: 0 <= o && 0 <= n && o + n <= blen(b) ==> blen(bsub(b, o, n)) == n
+//@ axiom forall b Bytes, o Int, n Int, i Int :: 0 <= o && 0 <= i && i < n && o + n <= blen(b) ==> bat(bsub(b, o, n), i) == bat(b, o + i)
+
+// The compressed file layer (snappy buffered writer / reader over the file) is a byte pipe: ghost
+// `wstream` = everything written so far, `rest` = everything still to be read (third-party: ASSUMED).
+//@ ghostfield any.wstream Bytes
+//@ func s2.(*Writer).Write
+//@   assumed
+//@   params w, p
+//@   results n, err
+//@   ensures err == nil ==> n == len(p) && w.wstream == bcat(old(w.wstream), old(bytesOf(p)))
+//@   ensures err != nil ==> w.wstream == old(w.wstream)
+//@   modifies w.wstream
+// io.ReadFull: exactly len(buf) bytes or an error
+//@ func io.ReadFull
+//@   assumed
+//@   params r, buf
+//@   results n, err
+//@   ensures err == nil ==> n == len(buf) && blen(old(r.rest)) >= len(buf) && bytesOf(buf) == bsub(old(r.rest), 0, len(buf)) && r.rest == bsub(old(r.rest), len(buf), blen(old(r.rest)) - len(buf))
+//@   modifies r.rest, elems(buf)
+
+// one frame = 8-byte little-endian length, then the message
+//@ pure func frame(m Bytes) Bytes = bcat(le64(blen(m)), m)
+
+// Write appends exactly one frame holding p (nothing for an empty p)
+//@ func (*snapshotFile).Write
+//@   params s, p
+//@   results n, err
+//@   requires s != nil && s.w != nil && len(s.lenBuff) == 8 && s.lenBuff.arr != p.arr
+//@   ensures [C18.frame.write] err == nil && len(p) > 0 ==> n == len(p) && s.w.wstream == bcat(old(s.w.wstream), frame(old(bytesOf(p))))
+//@   ensures [C18.frame.empty] len(p) == 0 ==> n == 0 && err == nil && s.w.wstream == old(s.w.wstream)
+//@   modifies s.w.wstream, elems(s.lenBuff)
+
+// Read consumes exactly one frame: the length prefix, then that many bytes into p
+//@ func (*snapshotFile).Read
+//@   maypanic
+//@   params s, p
+//@   results n, err
+//@   requires s != nil && s.r != nil && len(s.lenBuff) == 8 && s.lenBuff.arr != p.arr
+//@   requires [fits] blen(s.r.rest) >= 8 ==> unle64(bsub(s.r.rest, 0, 8)) <= len(p)
+//@   ensures [C18.frame.read] err == nil ==> blen(old(s.r.rest)) >= 8 && n == unle64(bsub(old(s.r.rest), 0, 8)) && 8 + n <= blen(old(s.r.rest)) && bytesOf(p[:n]) == bsub(old(s.r.rest), 8, n) && s.r.rest == bsub(old(s.r.rest), 8 + n, blen(old(s.r.rest)) - 8 - n)
+//@   modifies s.r.rest, elems(s.lenBuff), elems(p)
+
+// what was framed is what is read back: for a stream that starts with frame(m), Read's postcondition
+// yields exactly m and leaves exactly the remainder
+//@ lemma frameRoundTrip(m Bytes, t Bytes)
+//@   requires blen(m) < 18446744073709551616
+//@   assert blen(bcat(frame(m), t)) == 8 + blen(m) + blen(t)
+//@   assert bsub(bcat(frame(m), t), 0, 8) == le64(blen(m))
+//@   ensures [C18.frame.len] unle64(bsub(bcat(frame(m), t), 0, 8)) == blen(m)
+//@   ensures [C18.frame.msg] bsub(bcat(frame(m), t), 8, blen(m)) == m
+//@   ensures [C18.frame.rest] bsub(bcat(frame(m), t), 8 + blen(m), blen(t)) == t
+
+// a plain Read of the compressed layer may return fewer bytes than asked for (it returns short at
+// the end of every decoded block)
+//@ func s2.(*Reader).Read
+//@   assumed
+//@   params r, p
+//@   results n, err
+//@   ensures 0 <= n && n <= len(p) && n <= blen(old(r.rest))
+//@   ensures bytesOf(p[:n]) == bsub(old(r.rest), 0, n) && r.rest == bsub(old(r.rest), n, blen(old(r.rest)) - n)
+//@   modifies r.rest, elems(p)
